@@ -7,6 +7,7 @@ values as symbolic digit strings.
 """
 import ast
 import inspect
+import json
 import os
 import sys
 import tempfile
@@ -412,12 +413,68 @@ def make_o3():
     return o3
 
 
+# ------------------------------------------------------------------ O4: two loads in one process
+LOAD_POOL = [
+    {},
+    {"file": {"retries": "5", "no_upload": "true"}},
+    {"env": {"http_timeout": "9.5", "obfuscate": "true"}},
+    {"cli": ["--offline"]},
+    {"cli": ["--no-gpg", "--retry", "4"]},
+    {"file": {"proxy": "http://p:1"}, "env": {"quiet": "true"}, "cli": ["--verbose"]},
+    {"cli": ["--output-dir", os.path.join(_TMP, "o4-out")]},
+    {"cli": ["--keep-archive", "--net-debug"]},
+]
+
+
+def config_view(cfg):
+    return dict((k, getattr(cfg, k, None)) for k in sorted(DEFAULT_OPTS))
+
+
+def make_o4():
+    """option loading leaves no trace in the process: what a second load returns does not depend on an earlier load"""
+    def o4(en):
+        a = LOAD_POOL[en.choice("first", len(LOAD_POOL))]
+        b = LOAD_POOL[en.choice("second", len(LOAD_POOL))]
+        case = lambda mv: {"two_loads": [a, b]}  # noqa
+        en.note_sample(case)
+        conf = os.path.join(_TMP, "conf-%d.conf" % os.getpid())
+        defaults_before = repr(sorted((k, sorted(v.items(), key=repr)) for k, v in DEFAULT_OPTS.items()))
+        load_assign(a, conf)
+        got, err = load_assign(b, conf)
+        en.must_hold(repr(sorted((k, sorted(v.items(), key=repr)) for k, v in DEFAULT_OPTS.items())) == defaults_before, "precedence", case,
+                     detail="loading options changed the table of built-in defaults")
+        ref = O4_REF.get(json.dumps(b, sort_keys=True))
+        en.must_hold((err is None) == (ref[1] is None), "precedence", case, detail="second load %s, the same load alone %s" % ("raised %r" % err if err else "succeeded", "raised %r" % ref[1] if ref[1] else "succeeded"))
+        if err is None and ref[1] is None:
+            diff = [k for k in ref[0] if k != "conf" and ref[0][k] != getattr(got, k, None)]
+            en.must_hold(not diff, "precedence", case, detail="after an earlier load the options %s differ from the same load in a fresh process" % diff)
+    return o4
+
+
+O4_REF = {}
+
+
+def o4_references():
+    """each pool entry loaded on its own, before anything else has been loaded in this process"""
+    if O4_REF:
+        return
+    conf = os.path.join(_TMP, "conf-ref-%d.conf" % os.getpid())
+    for b in LOAD_POOL:
+        p = __import__("subprocess").run([sys.executable, "-c", "import json,sys\nsys.argv=['x']\nfrom props import C16\nb=json.loads(%r)\ng,e=C16.load_assign(b,%r)\nprint(json.dumps([None if g is None else dict((k,v) for k,v in C16.config_view(g).items() if isinstance(v,(int,float,str,bool,type(None)))), None if e is None else str(e)]))" % (json.dumps(b), conf)],
+                                          capture_output=True, text=True, env=dict(os.environ, SYMX_NATIVE="1"))
+        out = [l for l in p.stdout.splitlines() if l.startswith("[")]
+        if p.returncode != 0 or not out:
+            raise RuntimeError("reference load failed: %s" % p.stderr[-400:])
+        O4_REF[json.dumps(b, sort_keys=True)] = json.loads(out[-1])
+
+
 def obligations(tier):
     thorough = tier == "thorough"
     enc = [InsightsConfig.__init__, InsightsConfig._update_dict, InsightsConfig._load_env, InsightsConfig._load_config_file,
            InsightsConfig._load_command_line, InsightsConfig.load_all, InsightsConfig._imply_options, InsightsConfig._validate_options]
     bools = BOOLISH if thorough else [b for b in QUICK_BOOLS if b in DEFAULT_OPTS]
     names = [n for n in sorted(DEFAULT_OPTS) if n not in SKIP and option_kind(n) != "other"]
+    o4_references()
     return [
         Obligation("O1-implications", make_o1(bools), ["consistent"],
                    desc="InsightsConfig(**kw): whenever construction succeeds the result is consistent and no conflicting request was accepted",
@@ -436,6 +493,11 @@ def obligations(tier):
                    desc="the legacy option no_gpg and the option gpg it stands for, set in any combination of file / environment / command line: gpg follows CLI > env > file with no_gpg=true counting as gpg=false in its own source",
                    bounds={"no_gpg": "absent / true / false in file and in environment", "gpg": "absent / true / false in file and in environment, --no-gpg on the command line or not"},
                    stubs=["as O2"], encoded=enc[:6], budget_s=120, replay="precedence", check_sample=True),
+        Obligation("O4-two-loads", make_o4(), ["precedence"],
+                   desc="two load_all() calls in one process, each from any of %d source assignments: the second result equals the same load in a fresh interpreter, and the table of built-in defaults is unchanged" % len(LOAD_POOL),
+                   bounds={"assignments": LOAD_POOL, "pairs": "all %d ordered pairs" % (len(LOAD_POOL) ** 2)},
+                   stubs=["as O2; the reference for each assignment is computed once in a fresh uninstrumented interpreter"], outside=["non-scalar option values are left out of the comparison"],
+                   encoded=enc[:6], budget_s=120, replay="precedence", check_sample=True),
     ]
 
 
@@ -453,6 +515,19 @@ def _native(case):
         except ValueError:
             return []
         return [text for f, text in implications(cfg, kw) if not f]
+    if case.get("two_loads"):
+        a, b = case["two_loads"]
+        conf = os.path.join(_TMP, "conf-native.conf")
+        o4_references()
+        load_assign(a, conf)
+        got, err = load_assign(b, conf)
+        ref = O4_REF[json.dumps(b, sort_keys=True)]
+        if (err is None) != (ref[1] is None):
+            return ["second load %r vs alone %r" % (err, ref[1])]
+        if err is None:
+            diff = [k for k in ref[0] if k != "conf" and ref[0][k] != getattr(got, k, None)]
+            return ["after an earlier load the options %s differ from the same load in a fresh process" % diff] if diff else []
+        return []
     if case.get("alias"):
         got, err = load_assign(case["assign"], os.path.join(_TMP, "conf-native.conf"))
         if err is not None:
